@@ -544,48 +544,69 @@ class _Run(object):
     mi = op["m"] % len(MATCHES)
     flags = op.get("flags", 0)
     out_port = op.get("out_port", cb.OFPP_NONE)
+    prio = op.get("prio", 0x8000)
     errs, maybe = self.classify_actions(acts, in_flow_mod=True)
     bid, bkind = self.resolve_buf(op.get("buf"))
-    root = None
-    if (errs or maybe) and bkind == "live":
-      bid, bkind = cb.NO_BUFFER, "none"     # whether a refused message consumes the buffer is open
     is_del = cmd in (cb.OFPFC_DELETE, cb.OFPFC_DELETE_STRICT)
     known_cmd = cmd in (0, 1, 2, 3, 4)
     if is_del or not known_cmd:
       bid, bkind = cb.NO_BUFFER, "none"       # buffer ids are not meaningful for DELETE
-    uncertain = known_cmd and not is_del and (bool(errs) or maybe or bkind not in ("none", "live"))
+    special = bool(flags & (cb.OFPFF_EMERG | cb.OFPFF_CHECK_OVERLAP)) and known_cmd and not is_del
+    bogus = bkind not in ("none", "live")
+    uncertain = known_cmd and not is_del and (bool(errs) or bool(maybe) or bogus)
     if uncertain:
-      cmd = cb.OFPFC_ADD
+      cmd = cb.OFPFC_ADD                      # the shadow only knows uncertain ADDs
       if errs or maybe:
-        mi = M_NEVER
+        mi = M_NEVER                          # such a flow must never be hit by a frame of this history
     acts_raw = _enc_actions(acts)
     raw = cb.flow_mod(x, MATCHES[mi], cookie=op.get("cookie", 0), command=cmd, idle_timeout=op.get("idle", 0),
-                      hard_timeout=op.get("hard", 0), priority=op.get("prio", 0x8000), buffer_id=bid, out_port=out_port,
-                      flags=flags, actions=acts_raw)
+                      hard_timeout=op.get("hard", 0), priority=prio, buffer_id=bid, out_port=out_port, flags=flags, actions=acts_raw)
     if not known_cmd:
       self.add("flow_mod/bad-command", raw, "error", errors={(cb.OFPET_FLOW_MOD_FAILED, cb.OFPFMFC_BAD_COMMAND)})
       return
-    if flags & (cb.OFPFF_EMERG | cb.OFPFF_CHECK_OVERLAP):
-      cls, kind, e = "flow_mod/emerg-or-overlap", "maybe", None
-    elif is_del:
-      cls, kind, e = "flow_mod/delete", ("maybe" if (errs or maybe) else "none"), None
-    elif bkind not in ("none", "live"):
-      cls, kind, e = "flow_mod/buffer-%s" % bkind, "error", E_BUF | errs | (E_UNSUP if errs else set())
-      root = "buffer-not-outstanding"
-    elif errs:
-      cls, kind, e = "flow_mod/bad-action", "error", errs | E_UNSUP
-    elif maybe:
-      cls, kind, e = "flow_mod/" + maybe, "maybe", None
+    definite = set()
+    root = None
+    if bogus:
+      definite |= E_BUF
+    if errs and not is_del:
+      definite |= errs | E_UNSUP
+    if special:
+      flag_errs = {(cb.OFPET_FLOW_MOD_FAILED, c) for c in (cb.OFPFMFC_ALL_TABLES_FULL, cb.OFPFMFC_OVERLAP, cb.OFPFMFC_EPERM,
+                                                             cb.OFPFMFC_BAD_EMERG_TIMEOUT, cb.OFPFMFC_UNSUPPORTED)}
     else:
-      cls, kind, e = ("flow_mod/buffer-live" if bkind == "live" else "flow_mod/ok"), "none", None
+      flag_errs = set()
+    if bogus:
+      cls, root = "flow_mod/buffer-%s" % bkind, "buffer-not-outstanding"
+    elif errs and not is_del:
+      cls = "flow_mod/bad-action"
+    elif special:
+      cls = "flow_mod/emerg-or-overlap"
+    elif is_del:
+      cls = "flow_mod/delete"
+    elif maybe:
+      cls = "flow_mod/" + maybe
+    else:
+      cls = "flow_mod/buffer-live" if bkind == "live" else "flow_mod/ok"
+    if definite:
+      kind, e = "error", definite | flag_errs
+    elif special or maybe or (errs and is_del):
+      kind, e = "maybe", None
+    else:
+      kind, e = "none", None
     stored = sh.pool.out.get(bid) if bkind == "live" else None
-    sh.flow_mod(MATCHES[mi], cmd, op.get("prio", 0x8000), op.get("cookie", 0), op.get("idle", 0), op.get("hard", 0), flags,
-                out_port, acts_raw, maybe=uncertain and not (flags & (cb.OFPFF_EMERG | cb.OFPFF_CHECK_OVERLAP)))
+    sh.flow_mod(MATCHES[mi], cmd, prio, op.get("cookie", 0), op.get("idle", 0), op.get("hard", 0), flags, out_port, acts_raw,
+                maybe=uncertain and not special)
     if stored is not None:
-      if sh.dirty["ports"]:
+      if kind == "none":
+        if sh.dirty["ports"]:
+          sh.tx_known = False
+        sh.apply_actions(cb.decode_actions(acts_raw), stored[0], stored[1])
+        sh.pool.release(bid)
+      else:
+        # a switch that refuses the flow-mod may or may not send the buffered packet through the actions
         sh.tx_known = False
-      sh.apply_actions(cb.decode_actions(acts_raw), stored[0], stored[1])
-      sh.pool.release(bid)
+        sh.pool.forget(bid)
+        self.out.label("live-buffer-in-refusable-message")
       self.processed = (stored[0], stored[1])
     self.add(cls, raw, kind, errors=e, root=root)
 
@@ -595,8 +616,6 @@ class _Run(object):
     acts = [list(a) for a in op.get("acts", [])]
     errs, maybe = self.classify_actions(acts)
     bid, bkind = self.resolve_buf(op.get("buf"))
-    if (errs or maybe) and bkind == "live":
-      bid, bkind = cb.NO_BUFFER, "none"     # whether a refused message consumes the buffer is open
     in_port = op.get("in_port", cb.OFPP_NONE)
     if in_port != cb.OFPP_NONE and in_port not in sh.ports:
       in_port = cb.OFPP_NONE
@@ -610,26 +629,41 @@ class _Run(object):
     acts_raw = _enc_actions(acts)
     raw = cb.packet_out(x, buffer_id=bid, in_port=in_port, actions=acts_raw, data=data)
     root = None
-    if bkind not in ("none", "live"):
-      cls, kind, e = "packet_out/buffer-%s" % bkind, "error", E_BUF | errs
-      root = "buffer-not-outstanding"
+    bogus = bkind not in ("none", "live")
+    definite = set()
+    if bogus:
+      definite |= E_BUF
+    if errs:
+      definite |= errs
+    if bogus:
+      cls, root = "packet_out/buffer-%s" % bkind, "buffer-not-outstanding"
     elif bkind == "none" and not data:
-      cls, kind, e = "packet_out/nothing-to-send", "maybe", None
+      cls = "packet_out/nothing-to-send"
     elif errs:
-      cls, kind, e = "packet_out/bad-action", "error", errs
+      cls = "packet_out/bad-action"
     elif maybe:
-      cls, kind, e = "packet_out/" + maybe, "maybe", None
+      cls = "packet_out/" + maybe
     else:
-      cls, kind, e = ("packet_out/buffer-live" if bkind == "live" else "packet_out/data"), "none", None
+      cls = "packet_out/buffer-live" if bkind == "live" else "packet_out/data"
+    if definite:
+      kind, e = "error", definite
+    elif maybe or (bkind == "none" and not data):
+      kind, e = "maybe", None
+    else:
+      kind, e = "none", None
     frame = stored[0] if stored is not None else (data or None)
     if frame is not None:
-      if errs or sh.dirty["ports"]:
+      if kind != "none" or sh.dirty["ports"]:
         sh.tx_known = False
       sh.apply_actions(cb.decode_actions(acts_raw), frame, in_port)
       if any(a[0] == "out" and a[1] == cb.OFPP_TABLE for a in acts):
         self.out.label("packet-out-to-table")
       if stored is not None:
-        sh.pool.release(bid)
+        if kind == "none":
+          sh.pool.release(bid)
+        else:
+          sh.pool.forget(bid)
+          self.out.label("live-buffer-in-refusable-message")
       self.processed = (frame, in_port)
     self.add(cls, raw, kind, errors=e, root=root)
 
@@ -804,12 +838,20 @@ class _Run(object):
     for m in stream:
       j = len(reqs)
       if m["type"] == cb.OFPT_ERROR:
-        # prefer the request whose bytes the error quotes, then one that can be refused at all
+        # an error quotes the offending request: its first 8 bytes (type, length, xid) say which one it answers
         data = m.get("data", b"")
         open_ = [k for k in range(i, len(reqs)) if reqs[k].answer is None and reqs[k].xid == m["xid"] and reqs[k].internal is None]
-        quoted = [k for k in open_ if len(data) >= 8 and reqs[k].raw[:len(data)] == data]
+        if len(data) >= 8:
+          quoted = [k for k in open_ if reqs[k].raw[:8] == data[:8]]
+          if not quoted:
+            done = [r for r in reqs if r.answer is not None and r.raw[:8] == data[:8]]
+            if done:
+              self.fail("duplicate-response", "a second response (error %d/%d, xid %d) quotes request #%d (%s), which was already answered" % (
+                  m["etype"], m["code"], m["xid"], done[-1].idx, done[-1].cls), req=done[-1].root, mtype="error")
+              continue
+          open_ = quoted
         refusable = [k for k in open_ if reqs[k].kind != "none"]
-        for lst in (quoted, refusable, open_):
+        for lst in (refusable, open_):
           if lst:
             j = lst[0]
             break
@@ -1004,6 +1046,12 @@ def _grid_ops():
                [["out", cb.OFPP_FLOOD, 0]], [["out", cb.OFPP_ALL, 0]], [["out", cb.OFPP_IN_PORT, 0]], [["out", cb.OFPP_NONE, 0]], []):
     ops.append({"o": "packet_out", "data": [1, 0, 64], "in_port": 1, "acts": acts})
     ops.append({"o": "flow_mod", "m": 4, "cmd": 0, "acts": acts})
+  # a flow-mod the switch refuses, with a buffer: still exactly one error
+  ops.append({"o": "flow_mod", "m": 5, "cmd": 0, "flags": 4, "buf": {"k": "live", "i": 0}, "acts": [["bad", 12]]})
+  ops.append({"o": "flow_mod", "m": 5, "cmd": 0, "flags": 4, "buf": {"k": "zero"}, "acts": [["out", 1, 0]]})
+  ops.append({"o": "flow_mod", "m": 5, "cmd": 0, "flags": 4, "buf": {"k": "live", "i": 0}, "acts": [["out", 1, 0]]})
+  ops.append({"o": "flow_mod", "m": 5, "cmd": 0, "flags": 4, "idle": 9, "buf": {"k": "unknown", "i": 1}, "acts": []})
+  ops.append({"o": "packet_out", "buf": {"k": "live", "i": 0}, "acts": [["out", 1, 0], ["bad", 77]]})
   ops.append({"o": "packet_out", "acts": [["out", 1, 0]]})
   ops.append({"o": "packet_out", "data": [0, 0, 14], "in_port": cb.OFPP_NONE, "acts": [["out", 1, 0]]})
   return ops
